@@ -392,7 +392,17 @@ impl C05 {
             render: false,
             ..Default::default()
         };
-        let res = run_once(&c.u, &c.problem, &cfg);
+        // a third of the cases: the problem is solved twice on one solver (everything the first
+        // solve fetched - in whatever order an asynchronous provider answered - is in the
+        // cache); the second answer is the one that is judged
+        let twice = sc.extra.first().map_or(false, |v| v % 3 == 1);
+        let mut session = Session::new(c.u.clone(), &cfg.runtime, None);
+        let mut res = session.solve(&c.problem, Cancel::Never, true, false);
+        if twice && !matches!(res.outcome, Outcome::Panic(_)) {
+            rep.evaluations += 1;
+            rep.labels.push("second-solve-on-the-same-solver");
+            res = session.solve(&c.problem, Cancel::Never, true, false);
+        }
         rep.labels.push(res.outcome.kind());
         label_search(&res.labels, &mut rep.labels);
         if let Some(f) = abnormal(&res.outcome, Cancel::Never) {
